@@ -10,4 +10,6 @@ G int g_ended, g_requeued, g_incfail, g_connerr, g_probed, g_order, g_incfail_at
 G ares_status_t g_end_status, g_rq_status, g_open_status, g_write_status; G ares_bool_t g_rq_inc;
 G ares_server_t *g_fetch_server, *g_random; G ares_server_t g_first, g_rnd, g_req; G ares_conn_t g_conn; G ares_conn_t *g_fetched; G size_t g_timeplus;
 G char tok_tmo, tok_conn; G _Bool g_tmo_ok, g_ll_ok;
+/* re-entrancy: closing a connection completes its other queries; their callbacks may cancel the channel, which releases the query being sent */
+G _Bool g_cb_may_cancel, g_query_released; G ares_query_t *g_sending;
 #endif
